@@ -52,6 +52,8 @@ structure St where
   stInMsg : Bool := false
   stTorn : Bool := false
   stEof : Bool := false
+  -- raw byte queue (no encoder): the open data, `fin` holds the finished bytes not yet taken
+  rawOpen : List Byte := []
   deriving Inhabited
 
 /-- bytes as text: `-` empty, hex up to 96 bytes, else `<len>:<adler32 parts>` -/
@@ -101,27 +103,34 @@ def eqLine (r : String) (q : EncodeQueue) (fdone : Nat) (ret : String) (alts : S
 
 /-- S for an operation that must not change the finished data -/
 def keepAlts (s : St) : String :=
-  if s.variant.isSome ∨ s.cmd then s!"* ; fin={showB s.fin}" else "* ; *"
+  if s.variant.isSome ∨ s.cmd ∨ s.eq.codec.isNone then s!"* ; fin={showB s.fin}" else "* ; *"
 
 def doPush (s : St) (bytes : List Byte) : St × String :=
   -- command text must not accept a zero byte
   let alts := match s.cmd, bytes.findIdx? (· == 0) with
     | true, some z => " || ".intercalate (s!"refused n=0 ; fin={showB s.fin}" ::
         (List.range (min z 64)).map fun k => s!"ok n={k + 1} ; fin={showB s.fin}")
-    | _, _ => keepAlts s
+    | _, _ =>
+      if s.eq.codec.isNone then
+        -- raw byte queue: as many bytes as the storage has room for
+        let free := s.eq.ring.max - (s.fin.length + s.rawOpen.length)
+        if free = 0 then s!"refused n=0 ; fin={showB s.fin}" else s!"ok n={min free bytes.length} ; fin={showB s.fin}"
+      else keepAlts s
   match queuePush s.eq (some bytes) with
   | .ok o =>
     if o.ret < 0 then
       ({ s with eq := o.q, pending := bytes }, eqLine "refused n=0" o.q s.fdone (errName o.ret) alts)
     else
       let n := min o.ret.toNat bytes.length
-      let s' := { s with eq := o.q, pending := bytes.drop n, cur := s.cur ++ marksOf o.cons (bytes.take n) }
+      let s' := { s with eq := o.q, pending := bytes.drop n, cur := s.cur ++ marksOf o.cons (bytes.take n),
+                         rawOpen := if s.eq.codec.isNone then s.rawOpen ++ bytes.take n else s.rawOpen }
       (s', eqLine s!"ok n={o.ret}" o.q s.fdone (errName o.ret) alts)
   | x => (s, eqLine s!"model-{resName x}" s.eq s.fdone (resName x) alts)
 
 def termAlts (s : St) : String × List Byte :=
   match (if s.cmd then some (s.cur.map Prod.fst ++ [0]) else s.variant.map fun v => encB v [] false s.cur ++ [0]) with
-  | none => ("* ; *", s.fin)
+  | none =>
+    if s.eq.codec.isNone then (s!"ok ; fin={showB (s.fin ++ s.rawOpen)}", s.fin ++ s.rawOpen) else ("* ; *", s.fin)
   | some f =>
     let w := s.fin ++ f.drop s.early
     -- refusal is allowed exactly when the queue cannot hold the rest of the frame
@@ -425,6 +434,16 @@ def step (s : St) (w : List String) : St × String :=
       let k := if s.stEof then 0 else min n (s.txWire.length - s.moved)
       ({ s with moved := s.moved + k }, stLine s!"ok n={k}")
     | none => (s, "bad-op")
+  | ["st", "mem"] =>
+    if !s.stReady then (s, "bad-op") else
+    -- a receiver on a memory block with everything flushed so far: all messages with complete frames, from the start
+    match s.txq.codec with
+    | some (.cobs v) =>
+      if v.isZpe then (s, stLine "skipped") else
+      let ms := s.stSent.take (frameCount s.txWire)
+      let txt := if ms.isEmpty then "-" else ",".intercalate (ms.map showB)
+      (s, stLine s!"poll=-2 msgs={txt} n={ms.length}")
+    | _ => (s, stLine "skipped")
   | ["st", "eof"] =>
     if !s.stReady then (s, "bad-op") else ({ s with stEof := true }, stLine "ok")
   | ["st", "poll"] =>
@@ -459,7 +478,7 @@ def step (s : St) (w : List String) : St × String :=
       if o > m then (s, "bad-op") else
       let q : EncodeQueue := { ring := { store := List.replicate m 0, len := 0, off := o },
                                codec := if name = "command" then some .command else cv.map .cobs }
-      let s' : St := { s with variant := cv, cmd := name = "command", eq := q, eqReady := true, pending := [], wire := [], wirepos := 0, fin := [], cur := [], sent := 0, fdone := 0, early := 0, sentMsgs := [], scripted := false }
+      let s' : St := { s with variant := cv, cmd := name = "command", eq := q, eqReady := true, pending := [], wire := [], wirepos := 0, fin := [], cur := [], sent := 0, fdone := 0, early := 0, sentMsgs := [], scripted := false, rawOpen := [] }
       (s', eqLine "ok" q 0 "0" "ok ; fin=-")
     | _, _, _ => (s, "bad-op")
   | ["eq", "push", dat] =>
@@ -476,7 +495,7 @@ def step (s : St) (w : List String) : St × String :=
     match queuePush s.eq none with
     | .ok o =>
       if o.ret < 0 then ({ s with eq := o.q }, eqLine "refused" o.q s.fdone (errName o.ret) alts)
-      else ({ s with eq := o.q, pending := [], fin := w, cur := [], early := 0, sent := s.sent + 1, fdone := o.q.st.done,
+      else ({ s with eq := o.q, pending := [], fin := w, cur := [], rawOpen := [], early := 0, sent := s.sent + 1, fdone := o.q.st.done,
                      sentMsgs := s.sentMsgs ++ [s.cur.map Prod.fst] },
             eqLine "ok" o.q o.q.st.done (errName o.ret) alts)
     | x => (s, eqLine s!"model-{resName x}" s.eq s.fdone (resName x) alts)
@@ -493,8 +512,12 @@ def step (s : St) (w : List String) : St × String :=
       let torn := !(splitFrames s.wire).2.isEmpty
       let misuse := need ≤ frames.length ∧ ((need > 0 ∧ need = frames.length ∧ torn) ∨ (!s.cur.isEmpty ∧ s.early > 0))
       let spec := s.variant.isSome ∧ s.early = 0 ∧ !misuse
+      let raw := s.eq.codec.isNone
       let alts :=
-        if !spec then "* ; *"
+        if raw then
+          -- without encoder only the open data can be dropped, one "message"
+          if k = 1 ∧ !s.rawOpen.isEmpty then s!"ok ; fin={showB s.fin}" else s!"refused ; fin={showB s.fin}"
+        else if !spec then "* ; *"
         else if need ≤ frames.length then s!"ok ; fin={showB keep}"
         else s!"refused ; fin={showB s.fin}"
       match queueDel s.eq k with
@@ -504,8 +527,8 @@ def step (s : St) (w : List String) : St × String :=
           let fd := min s.fdone o.q.st.done
           let gone := if s.eq.codec.isSome then ((s.eq.ring.content.take (min s.fdone s.eq.ring.len)).count 0) - ((o.q.ring.content.take (min fd o.q.ring.len)).count 0) else 0
           ({ s with eq := o.q, pending := [], cur := [], early := 0, fdone := fd, sent := s.sent - gone,
-                    variant := if misuse then none else s.variant,
-                    fin := if spec then keep else s.fin.take fd, sentMsgs := s.sentMsgs.take (s.sentMsgs.length - gone) },
+                    variant := if misuse then none else s.variant, rawOpen := [],
+                    fin := if raw then s.fin else if spec then keep else s.fin.take fd, sentMsgs := s.sentMsgs.take (s.sentMsgs.length - gone) },
            eqLine "ok" o.q fd (errName o.ret) alts)
       | x => (s, eqLine s!"model-{resName x}" s.eq s.fdone (resName x) alts)
     | none => (s, "bad-op")
@@ -536,7 +559,7 @@ def step (s : St) (w : List String) : St × String :=
     | some n =>
       let k := min n (min s.eq.st.done s.eq.ring.len)
       let alts :=
-        if s.variant.isNone ∧ !s.cmd then "* ; *"
+        if s.variant.isNone ∧ !s.cmd ∧ s.eq.codec.isSome then "* ; *"
         else if k ≤ s.fin.length then s!"ok out={showB (s.fin.take k)} ; fin={showB (s.fin.drop k)}" else "* ; fin=-"
       match s.eq.ring.crop 0 k, queueTake s.eq n with
       | cr, .ok (q, out) =>
